@@ -233,7 +233,7 @@ func verifH_CliFrame() {
 			verifAssert(len(car.sent) == 0, "C07.cli-late-frame-no-reply")
 		} else {
 			verifCover("never-created")
-			verifAssert(tunnelError, "C09.cli-frame-for-unknown-id-ends-tunnel")
+			verifAssert(tunnelError, "C09+C11.cli-frame-for-unknown-id-ends-tunnel")
 		}
 		return
 	}
@@ -481,9 +481,14 @@ func verifH_NewStream() {
 		opts = append(opts, WithTunnelChannel(&tc))
 	}
 	credErr := errors.New("no token")
+	// the credentials may produce a key the caller also set: both must reach the peer
+	credKey := "auth"
+	if credShape == 1 && mdShape == 1 && verifBool("credKeyCollides") {
+		credKey = "k"
+	}
 	switch credShape {
 	case 1:
-		opts = append(opts, grpc.PerRPCCredentials(&vCreds{pairs: map[string]string{"auth": "tok"}}))
+		opts = append(opts, grpc.PerRPCCredentials(&vCreds{pairs: map[string]string{credKey: "tok"}}))
 	case 2:
 		opts = append(opts, grpc.PerRPCCredentials(&vCreds{secure: true, pairs: map[string]string{"auth": "tok"}}))
 	case 3:
@@ -566,12 +571,17 @@ func verifH_NewStream() {
 			n := 0
 			if wantK {
 				n++
-				verifAssert(len(got["k"]) == 2 && got["k"][0] == "v1" && got["k"][1] == "v2", "C02.outgoing-metadata-carried")
+				verifAssert(len(got["k"]) >= 2 && got["k"][0] == "v1" && got["k"][1] == "v2", "C02+C17.outgoing-metadata-carried")
 			}
-			if wantAuth {
+			if wantAuth && credKey == "k" {
+				verifCover("creds-key-collides")
+				verifAssert(len(got["k"]) == 3 && got["k"][2] == "tok", "C02+C17.per-rpc-credentials-added-to-the-callers-values")
+			} else if wantAuth {
 				n++
 				verifCover("creds-attached")
 				verifAssert(len(got["auth"]) == 1 && got["auth"][0] == "tok", "C02.per-rpc-credentials-carried")
+			} else if wantK {
+				verifAssert(len(got["k"]) == 2, "C02+C17.outgoing-metadata-carried")
 			}
 			verifAssert(len(got) == n, "C02.no-foreign-metadata")
 		}
